@@ -5,6 +5,7 @@ JWT and OAuth2 schemes at API, service and method level (NoSecurity overrides, e
 credential locations) are generated, built and called through the generated client with a recording
 Auther scripted with every accept/reject vector; the sequence of callbacks, their credentials and
 scopes, whether the method ran and the error the caller got are compared with drv_sec."""
+import re
 import itertools
 import json
 import os
@@ -47,6 +48,53 @@ def cred_locations(design, m):
     return out
 
 
+def header_fields(design, eff, cl):
+    """credential attributes read by the header schemes of the effective requirements, in requirement
+    order and with repeats (two JWT schemes share one token attribute)"""
+    kinds = {sc["name"]: sc["kind"] for sc in design.get("schemes") or []}
+    out = []
+    for r in eff:
+        for sn in r["schemes"]:
+            k = kinds.get(sn)
+            for at, info in cl.items():
+                if info["in_header"] and info["kind"] == k and (k != "apikey" or info["scheme"] == sn):
+                    out.append(at)
+    return out
+
+
+def cred_key(design, eff, cl, at, value):
+    if not cl[at]["in_header"]:
+        return ((), at, value)
+    return (tuple(header_fields(design, eff, cl)), at, value)
+
+
+STRIP = re.compile(r"cred := strings\.SplitN\(\*?payload\.(\w+), \" \", 2\)\[1\]")
+
+
+def strip_blocks(b):
+    """decoder function -> credential fields of its stripping blocks, read from the generated server code
+    (the list `decodeCreds` is given in Model/Security.lean; theorem decodeCreds_count says a field is
+    stripped as often as it is listed)"""
+    import glob
+    out = {}
+    for fn in glob.glob(os.path.join(b.workdir, "out", "gen", "*", "*", "server", "encode_decode.go")):
+        src = open(fn).read()
+        for part in re.split(r"\n(?=func )", src):
+            m = re.match(r"func (Decode\w+Request)\(", part)
+            if m:
+                fields = STRIP.findall(part)
+                if fields:
+                    out[os.path.relpath(fn, os.path.join(b.workdir, "out")) + ":" + m.group(1)] = fields
+    return out
+
+
+def cred_line(key):
+    fs, at, value = key
+    if not fs:
+        return "cred 0 %s" % hx(value)
+    return "credf %d %s %s %s" % (len(fs), " ".join(hx(f) for f in fs), hx(at), hx(value))
+
+
 def run(c):
     n = 36 if c.tier == "quick" else 360
     c.cov["rule"] = ("designs 0..%d of the stream generated with security (1-3 of Basic/APIKey/JWT/OAuth2; requirements of 1-2 schemes, 1-2 alternatives, at "
@@ -83,6 +131,13 @@ def run(c):
             b.cleanup()
             continue
         c.hist("build", "ok")
+        for fn, fields in strip_blocks(b).items():
+            c.hist("stripping-blocks", str(len(fields)))
+            c.evaluations += 1
+            dup = sorted({f for f in fields if fields.count(f) > 1})
+            if dup:
+                c.fail("security/credential/stripped-more-than-once", "%s removes the scheme prefix of payload.%s %d times" % (fn, dup[0], fields.count(dup[0])),
+                       input={"seed": c.seed, "index": b.index, "decoder": fn}, design=b.design, expected="one stripping block per credential field", actual=fields)
         cmds, meta, lines = [], [], []
         for s in b.design["services"]:
             for m in s["methods"]:
@@ -125,9 +180,9 @@ def run(c):
             b.cleanup()
             continue
         # credentials: one model line per distinct (in_header, credential)
-        cred_q = sorted({(info["in_header"], cmd["payload"][attr]) for cmd, (s, m, eff, cl, acc) in zip(cmds, meta)
+        cred_q = sorted({cred_key(b.design, eff, cl, attr, cmd["payload"][attr]) for cmd, (s, m, eff, cl, acc) in zip(cmds, meta)
                          for attr, info in cl.items() if info["kind"] not in ("username", "password")})
-        rc, models, se = c.run_lines([drv], "\n".join(lines + ["cred %d %s" % (1 if h else 0, hx(v)) for h, v in cred_q]) + "\n")
+        rc, models, se = c.run_lines([drv], "\n".join(lines + [cred_line(q) for q in cred_q]) + "\n")
         if len(models) != len(lines) + len(cred_q) or "bad-op" in models:
             c.broken.append({"kind": "tie", "name": "drv_sec output", "detail": (se or "")[-300:]})
             b.cleanup()
@@ -222,7 +277,7 @@ def judge(b, s, m, eff, cl, cmd, model, o, cred_model):
         else:
             k = {"apikey": "apikey", "jwt": "jwt", "oauth2": "oauth2"}[sc["kind"]]
             ats = [at for at, info in cl.items() if info["kind"] == k and (k != "apikey" or info["scheme"] == sc["name"])]
-            want = [cred_model[(cl[at]["in_header"], p[at])] for at in ats]
+            want = [cred_model[cred_key(b.design, eff, cl, at, p[at])] for at in ats]
         if list(a.get("creds") or []) != want:
             out.append(("security/credential/%s" % sc["kind"], "callback of %s received %r, the model says %r (sent %r)" % (sc["name"], a.get("creds"), want,
                         {at: p.get(at) for at in cl})))
@@ -248,9 +303,10 @@ def replay(c, obj):
         for m in s["methods"]:
             if s["name"] == cmd["service"] and m["name"] == cmd["method"] and obs:
                 cl = cred_locations(b.design, m)
-                q = sorted({(info["in_header"], cmd["payload"][a]) for a, info in cl.items() if info["kind"] not in ("username", "password")})
+                eff = effective(b.design, s, m)
+                q = sorted({cred_key(b.design, eff, cl, a, cmd["payload"][a]) for a, info in cl.items() if info["kind"] not in ("username", "password")})
                 rc, models, se = c.run_lines([os.path.join(LEAN, ".lake/build/bin/drv_sec")],
-                                             "\n".join([f["input"]["model_line"]] + ["cred %d %s" % (1 if h else 0, hx(v)) for h, v in q]) + "\n")
+                                             "\n".join([f["input"]["model_line"]] + [cred_line(k) for k in q]) + "\n")
                 print("model:", models)
                 cm = {k: bytes.fromhex(mo).decode() if mo != "-" else "" for k, mo in zip(q, models[1:])}
                 res = judge(b, s, m, effective(b.design, s, m), cl, cmd, models[0], obs[0], cm)
